@@ -131,6 +131,26 @@ func runTree(k *mon.Case, withManual bool) {
 					for t := 0; t < 3 && !b.IsAncestorOf(s.Tip); t++ {
 						b = cands[r.Intn(len(cands))]
 					}
+					// half of the time prefer a valid block below a stored block that failed validation when it was
+					// connected: invalidating and later reconsidering it must bring back exactly the valid part of the branch
+					if r.Bool() {
+						var below []*refchain.Block
+						for _, c := range cands {
+							if !c.ChainValid() {
+								continue
+							}
+							for _, w := range blocks {
+								if w != c && w.Label == refchain.InvalidConnect && s.Status[w] == sim.SStored && c.IsAncestorOf(w) && w.Parent.ChainValid() {
+									below = append(below, c)
+									break
+								}
+							}
+						}
+						if len(below) > 0 {
+							b = below[r.Intn(len(below))]
+							k.Count("manual.invalidate_below_failed_block", 1)
+						}
+					}
 					s.Invalidate(b)
 					invalidated = append(invalidated, b)
 				}
@@ -158,6 +178,69 @@ func runTree(k *mon.Case, withManual bool) {
 	if k.Index < 3 {
 		k.Sample(map[string]any{"family": fam, "ops": s.Ops, "final_tip": s.Tip.Name})
 	}
+}
+
+// runReconsider: a branch X -> Y1..Yk -> W where W fails validation when it is connected (so the node marked W, and
+// only W, as failed); InvalidateBlock(X) and later ReconsiderBlock(X) must bring back exactly X..Yk; a new child of
+// Yk must then be accepted.
+func runReconsider(k *mon.Case) {
+	r := k.Rand
+	fam := famOf(r)
+	g := chaingen.New(node.NewParams(fam), fam, r)
+	g.MaxTx = 2
+	s, err := sim.New(k, g, node.Config{UtxoCacheMaxSize: []uint64{0, 4096, 1 << 25}[r.Intn(3)]})
+	if err != nil {
+		k.Failf("harness:open", "cannot open node: %v", err)
+		return
+	}
+	defer s.Destroy()
+	s.CheckViews = true
+	g.ClockNow = s.N.Clock.Now()
+	k.Desc(map[string]any{"family": fam, "mode": "reconsider-below-failed"})
+	tip := g.Tree.Genesis
+	for i := 0; i < 6+r.Intn(6); i++ {
+		tip = g.Block(r, tip, chaingen.BlockOpts{NTx: -1, Easy: r.Bool()})
+		s.DeliverBlock(tip)
+	}
+	x := g.Block(r, tip, chaingen.BlockOpts{NTx: -1, Easy: r.Bool()})
+	s.DeliverBlock(x)
+	y := x
+	for i := 0; i < 1+r.Intn(3); i++ {
+		y = g.Block(r, y, chaingen.BlockOpts{NTx: -1, Easy: r.Bool()})
+		s.DeliverBlock(y)
+	}
+	rc := chaingen.BasicRecipes(s.N.Clock.Now())[r.Intn(2)] // the two connect-time failures
+	w := g.Block(r, y, chaingen.BlockOpts{NTx: 0, Mutate: rc.Mutate, Label: rc.Label, Rule: rc.Rule})
+	s.DeliverBlock(w)
+	if r.Bool() {
+		s.DeliverBlock(g.Block(r, w, chaingen.BlockOpts{NTx: 0}))
+	}
+	if r.Bool() {
+		// an unrelated lighter side block
+		s.DeliverBlock(g.Block(r, tip, chaingen.BlockOpts{NTx: 0}))
+	}
+	if s.Failed {
+		return
+	}
+	s.Invalidate(x)
+	if r.Bool() {
+		s.Restart(r.Bool())
+	}
+	if r.Bool() {
+		s.DeliverBlock(g.Block(r, tip, chaingen.BlockOpts{NTx: 0}))
+	}
+	if !s.Failed {
+		s.Reconsider(x)
+	}
+	if !s.Failed {
+		z := g.Block(r, y, chaingen.BlockOpts{NTx: -1})
+		if r.Bool() {
+			s.DeliverHeader(z)
+		}
+		s.DeliverBlock(z)
+	}
+	k.Count("reconsider.below_failed_descendant", 1)
+	k.Eval(mon.Sig("recon", fam, len(s.Ops), s.Tip.Hash.String()[:8]), true)
 }
 
 // concurrent readers hammering the chain's read API while one goroutine delivers blocks (race detector).
@@ -243,6 +326,8 @@ func main() {
 		}
 		c.Family("tree", c.N(400, 20000), func(k *mon.Case) { runTree(k, false) })
 		c.Family("manual", c.N(300, 12000), func(k *mon.Case) { runTree(k, true) })
+		c.Family("reconsider", c.N(56, 2000), runReconsider)
+		c.Require("reconsider.below_failed_descendant", 20)
 		c.Require("tip.reorg_multiblock", 5)
 		c.Require("deliver.orphan_cascade", 20)
 		c.Require("check.views", 1000)
